@@ -28,7 +28,9 @@ func (c15Logger) Fatalf(format string, v ...interface{})   { panic(c15Refusal{})
 func (c15Logger) Panic(v ...interface{})                   { panic(c15Refusal{}) }
 func (c15Logger) Panicf(format string, v ...interface{})   { panic(c15Refusal{}) }
 
-const c15MaxTerm = 1 << 40
+// terms are compared, never measured: values below 2^7 keep every protobuf varint one byte long, so
+// Entry.Size() (payload accounting) does not fork per width class
+const c15MaxTerm = 120
 
 // c15Node: node 1 of a three-voter group {1,2,3}. The log holds nStable entries in storage and
 // nUnstable unstable ones; entry terms are symbolic, non-decreasing, >= 1 and <= Term; HardState symbolic
@@ -40,6 +42,11 @@ type c15Node struct {
 }
 
 func c15NewNode(nStable, nUnstable int, preVote, checkQuorum bool) *c15Node {
+	return c15NewNodeV(nStable, nUnstable, preVote, checkQuorum, -1)
+}
+
+// fixedVote >= 0: the persisted vote is that value instead of a forked choice
+func c15NewNodeV(nStable, nUnstable int, preVote, checkQuorum bool, fixedVote int) *c15Node {
 	n := &c15Node{st: NewMemoryStorage()}
 	n.st.snapshot.Metadata.ConfState = pb.ConfState{Voters: []uint64{1, 2, 3}}
 	term := vfUint64("term")
@@ -55,10 +62,22 @@ func c15NewNode(nStable, nUnstable int, preVote, checkQuorum bool) *c15Node {
 		n.st.ents = append(n.st.ents, pb.Entry{Index: uint64(i + 1), Term: n.terms[i]})
 	}
 	commit := uint64(vfChoice("commit", nStable+1))
-	vote := uint64(vfChoice("vote", 4))
+	// optionally the applied prefix has been compacted away (storage keeps only a dummy entry for it)
+	compact := uint64(0)
+	if c15Compaction && commit > 0 {
+		compact = uint64(vfChoice("compacted", int(commit)+1))
+	}
+	vote := uint64(fixedVote)
+	if fixedVote < 0 {
+		vote = uint64(vfChoice("vote", 4))
+	}
 	n.st.hardState = pb.HardState{Term: term, Vote: vote, Commit: commit}
 	cfg := &Config{ID: 1, ElectionTick: 10, HeartbeatTick: 1, Storage: n.st, MaxSizePerMsg: noLimit,
 		MaxInflightMsgs: 256, Logger: c15Logger{}, PreVote: preVote, CheckQuorum: checkQuorum}
+	if compact > 0 {
+		vfAssert(n.st.Compact(compact) == nil, "setup-compact")
+		cfg.Applied = compact
+	}
 	n.r = newRaft(cfg)
 	if nUnstable > 0 {
 		var es []pb.Entry
@@ -72,6 +91,8 @@ func c15NewNode(nStable, nUnstable int, preVote, checkQuorum bool) *c15Node {
 
 // c15Role puts the node into a role through the real become* functions; a leader's and a candidate's
 // bookkeeping is then made symbolic within its documented invariant.
+var c15Compaction bool
+
 const (
 	c15Follower = iota
 	c15PreCandidate
@@ -79,7 +100,10 @@ const (
 	c15Leader
 )
 
-func (n *c15Node) role(k int) {
+func (n *c15Node) role(k int) { n.roleP(k, 0) }
+
+// varyFor: peer whose progress is fully symbolic (0 = none); the other peer only varies its Match
+func (n *c15Node) roleP(k int, varyFor uint64) {
 	r := n.r
 	switch k {
 	case c15Follower:
@@ -105,10 +129,19 @@ func (n *c15Node) role(k int) {
 		n.terms = append(n.terms, r.Term)
 		last := r.raftLog.lastIndex()
 		for _, id := range []uint64{2, 3} {
+			if varyFor == 0 {
+				break
+			}
 			pr := r.prs.Progress[id]
 			m := uint64(vfChoice("match", int(last)+1))
 			pr.Match = m
-			pr.Next = m + 1 + uint64(vfChoice("next-ahead", int(last-m)+1))
+			pr.Next = m + 1
+			if id != varyFor {
+				continue
+			}
+			if m < last && vfChoice("next-ahead", 2) == 1 {
+				pr.Next = last + 1
+			}
 			switch vfChoice("progress-state", 2) {
 			case 0:
 				pr.State = tracker.StateProbe
@@ -139,7 +172,11 @@ func (n *c15Node) snap() c15Snap {
 	r := n.r
 	s := c15Snap{term: r.Term, vote: r.Vote, committed: r.raftLog.committed, last: r.raftLog.lastIndex(), state: r.state, votes: map[uint64]bool{}}
 	for i := uint64(1); i <= s.last; i++ {
-		s.terms = append(s.terms, n.termAt(i))
+		t := n.termAt(i)
+		if t == 0 && int(i) <= len(n.terms) {
+			t = n.terms[i-1] // compacted away: the term it had when it was written
+		}
+		s.terms = append(s.terms, t)
 	}
 	for k, v := range r.prs.Votes {
 		s.votes[k] = v
@@ -202,7 +239,7 @@ func c15Vote(nStable, nUnstable int) {
 	}
 	m := pb.Message{Type: typ, To: 1, From: uint64(2 + vfChoice("from", 2)), Term: vfUint64("m.term"),
 		LogTerm: vfUint64("m.logterm"), Index: vfUint64("m.index")}
-	vfAssume(m.Term < c15MaxTerm)
+	vfAssume(vfAnd(m.Term >= 1, m.Term < c15MaxTerm)) // senders never emit term 0 (raft.send refuses)
 	if vfChoice("transfer", 2) == 1 {
 		m.Context = []byte(campaignTransfer)
 	}
@@ -249,7 +286,7 @@ func c15Append(nStable, nUnstable, maxEnts int) {
 	pre := n.snap()
 	m := pb.Message{Type: pb.MsgApp, To: 1, From: uint64(2 + vfChoice("from", 2)), Term: vfUint64("m.term"),
 		LogTerm: vfUint64("m.logterm"), Index: vfUint64("m.index"), Commit: vfUint64("m.commit")}
-	vfAssume(vfAnd(m.Term < c15MaxTerm, m.Index < 1<<40))
+	vfAssume(vfAnd(vfAnd(m.Term >= 1, m.Term < c15MaxTerm), m.Index < 1<<40))
 	vfAssume(m.LogTerm <= m.Term)
 	k := vfChoice("nents", maxEnts+1)
 	prevT := m.LogTerm
@@ -303,14 +340,15 @@ func VF_C15_append_thorough() { c15Append(2, 1, 2) }
 // VF_C15_leader_commit: MsgAppResp to a leader with arbitrary progress: commit advances only to an index
 // of the leader's own term that a quorum has acknowledged.
 func c15LeaderCommit(nStable int) {
-	n := c15NewNode(nStable, 0, false, false)
-	n.role(c15Leader)
+	n := c15NewNodeV(nStable, 0, false, false, 0)
+	from := uint64(2 + vfChoice("from", 2))
+	n.roleP(c15Leader, from)
 	pre := n.snap()
-	m := pb.Message{Type: pb.MsgAppResp, To: 1, From: uint64(2 + vfChoice("from", 2)), Term: n.r.Term,
+	m := pb.Message{Type: pb.MsgAppResp, To: 1, From: from, Term: n.r.Term,
 		Index: vfUint64("m.index"), Reject: vfBool("m.reject"), RejectHint: vfUint64("m.hint"), LogTerm: vfUint64("m.logterm")}
-	vfAssume(vfAnd(m.Index < 1<<40, m.RejectHint < 1<<40))
-	// a follower only acknowledges entries it holds: the index is within the leader's log
-	vfAssume(m.Index <= pre.last)
+	// a follower acknowledges / rejects indexes the leader sent (within its log); the hint is the
+	// follower's own last index or a conflict index (anything up to "beyond the leader's log")
+	vfAssume(vfAnd(m.Index <= pre.last, vfAnd(m.RejectHint <= pre.last+2, m.LogTerm <= c15MaxTerm)))
 	if n.step(m) {
 		return
 	}
@@ -330,8 +368,10 @@ func c15LeaderCommit(nStable int) {
 	}
 	for _, id := range []uint64{2, 3} {
 		pr := r.prs.Progress[id]
-		vfAssert(pr.Next > pr.Match, "progress-next-not-after-match")
+		vfAssert(pr.Match <= r.raftLog.lastIndex(), "match-beyond-log")
+		vfAssert(pr.Match >= uint64(0), "match")
 	}
+	_ = pre
 }
 
 func VF_C15_leader_commit_quick()    { c15LeaderCommit(2) }
@@ -349,11 +389,9 @@ func c15Tally(nStable int) {
 	}
 	n.role(role)
 	r := n.r
-	// one earlier response from node 2 may already be recorded
-	switch vfChoice("earlier", 3) {
-	case 1:
-		r.prs.RecordVote(2, true)
-	case 2:
+	// one earlier response from node 2 may already be recorded (a rejection: with three voters an
+	// earlier grant would already have been a quorum together with the node's own vote)
+	if vfChoice("earlier", 2) == 1 {
 		r.prs.RecordVote(2, false)
 	}
 	pre := n.snap()
@@ -362,7 +400,7 @@ func c15Tally(nStable int) {
 		typ = pb.MsgPreVoteResp
 	}
 	m := pb.Message{Type: typ, To: 1, From: uint64(2 + vfChoice("from", 2)), Term: vfUint64("m.term"), Reject: vfBool("m.reject")}
-	vfAssume(m.Term < c15MaxTerm)
+	vfAssume(vfAnd(m.Term >= 1, m.Term < c15MaxTerm)) // senders never emit term 0 (raft.send refuses)
 	if n.step(m) {
 		return
 	}
@@ -371,11 +409,15 @@ func c15Tally(nStable int) {
 		vfAssert(pre.state == StateCandidate, "leader-without-candidacy")
 		vfAssert(vfAnd(typ == pb.MsgVoteResp, !m.Reject), "leader-from-non-vote")
 		vfAssert(m.Term == pre.term, "leader-from-other-term-vote")
+		// becomeLeader resets the tally: count the votes recorded before plus this one
 		yes := 0
 		for _, id := range []uint64{1, 2, 3} {
-			if r.prs.Votes[id] {
+			if pre.votes[id] {
 				yes++
 			}
+		}
+		if _, dup := pre.votes[m.From]; !dup {
+			yes++
 		}
 		vfAssert(yes >= 2, "leader-without-quorum")
 		vfAssert(r.Term == pre.term, "leader-term")
@@ -398,6 +440,7 @@ func VF_C15_tally_thorough() { c15Tally(2) }
 // VF_C15_snapshot: MsgSnap to a follower: the commit index never moves backwards and committed entries
 // are not replaced by an older snapshot.
 func c15Snapshot(nStable, nUnstable int) {
+	c15Compaction = true
 	n := c15NewNode(nStable, nUnstable, false, false)
 	n.role(c15Follower)
 	pre := n.snap()
@@ -405,7 +448,7 @@ func c15Snapshot(nStable, nUnstable int) {
 	vfAssume(vfAnd(si >= 1, si < 16))
 	m := pb.Message{Type: pb.MsgSnap, To: 1, From: 2, Term: vfUint64("m.term"),
 		Snapshot: pb.Snapshot{Metadata: pb.SnapshotMetadata{Index: si, Term: stm, ConfState: pb.ConfState{Voters: []uint64{1, 2, 3}}}}}
-	vfAssume(vfAnd(m.Term < c15MaxTerm, vfAnd(stm >= 1, stm <= m.Term)))
+	vfAssume(vfAnd(vfAnd(m.Term >= 1, m.Term < c15MaxTerm), vfAnd(stm >= 1, stm <= m.Term)))
 	// sender invariant: a snapshot covers committed state of the cluster; if we have committed index i at
 	// term t and the snapshot is at (i, t') for the same index then t' == t (State Machine Safety premise)
 	if si <= pre.committed {
@@ -450,7 +493,7 @@ func c15Ready(nStable int) {
 		vfAssume(m.Index <= n.r.raftLog.lastIndex())
 	}
 	m.To, m.From, m.Term = 1, uint64(2+vfChoice("from", 2)), vfUint64("m.term")
-	vfAssume(m.Term < c15MaxTerm)
+	vfAssume(vfAnd(m.Term >= 1, m.Term < c15MaxTerm)) // senders never emit term 0 (raft.send refuses)
 	if n.step(m) {
 		return
 	}
@@ -468,3 +511,103 @@ func c15Ready(nStable int) {
 
 func VF_C15_ready_quick()    { c15Ready(1) }
 func VF_C15_ready_thorough() { c15Ready(2) }
+
+// ---------------------------------------------------------------------------
+// VF_C15_restart: what a node exposes for persistence (hardState) brings a restarted node back to the
+// same term, vote and commit index (crash-restart never regresses them).
+func c15Restart(nStable int) {
+	n := c15NewNode(nStable, 0, false, false)
+	n.role(vfChoice("role", 4))
+	hs := n.r.hardState()
+	// the application persisted hs and the stable entries; restart from them
+	st := NewMemoryStorage()
+	st.snapshot.Metadata.ConfState = pb.ConfState{Voters: []uint64{1, 2, 3}}
+	for i := uint64(1); i <= n.r.raftLog.lastIndex(); i++ {
+		st.ents = append(st.ents, pb.Entry{Index: i, Term: n.termAt(i)})
+	}
+	st.hardState = hs
+	r2 := newRaft(&Config{ID: 1, ElectionTick: 10, HeartbeatTick: 1, Storage: st, MaxSizePerMsg: noLimit, MaxInflightMsgs: 256, Logger: c15Logger{}})
+	vfAssert(vfAnd(r2.Term == hs.Term, vfAnd(r2.Vote == hs.Vote, r2.raftLog.committed == hs.Commit)), "restart-lost-hardstate")
+	vfAssert(r2.state == StateFollower, "restart-not-follower")
+}
+
+func VF_C15_restart() { c15Restart(2) }
+
+// ---------------------------------------------------------------------------
+// VF_C15_campaign: MsgHup. A real campaign moves to a new term and votes for itself; a pre-campaign
+// changes neither; a leader does not campaign.
+func c15Campaign(nStable int) {
+	preVote := vfChoice("prevote", 2) == 1
+	n := c15NewNode(nStable, 0, preVote, false)
+	// entries up to the commit index are applied (otherwise pending configuration changes may veto)
+	n.r.raftLog.applied = n.r.raftLog.committed
+	n.role(vfChoice("role", 4))
+	pre := n.snap()
+	if n.step(pb.Message{Type: pb.MsgHup, From: 1}) {
+		return
+	}
+	r := n.r
+	n.common(pre)
+	if pre.state == StateLeader {
+		vfAssert(vfAnd(r.state == StateLeader, r.Term == pre.term), "leader-campaigned")
+		return
+	}
+	if r.state == StateCandidate {
+		vfAssert(vfAnd(r.Term == pre.term+1, r.Vote == 1), "campaign-term-or-vote")
+		vfAssert(r.prs.Votes[1], "campaign-self-vote-not-recorded")
+	}
+	if r.state == StatePreCandidate {
+		vfAssert(vfAnd(r.Term == pre.term, r.Vote == pre.vote), "precampaign-changed-hardstate")
+	}
+	for _, out := range r.msgs {
+		if out.Type == pb.MsgVote {
+			vfAssert(vfAnd(out.Term == r.Term, vfAnd(out.Index == pre.last, out.LogTerm == n.termAt(pre.last))), "vote-request-misstates-log")
+		}
+		if out.Type == pb.MsgPreVote {
+			vfAssert(vfAnd(out.Term == pre.term+1, vfAnd(out.Index == pre.last, out.LogTerm == n.termAt(pre.last))), "prevote-request-misstates-log")
+		}
+	}
+}
+
+func VF_C15_campaign() { c15Campaign(1) }
+
+// ---------------------------------------------------------------------------
+// VF_C15_confchange: a leader accepts at most one pending configuration change: a proposal carrying a
+// configuration change while another is pending (or while joint) is neutralised.
+func c15ConfChange(nStable int) {
+	n := c15NewNodeV(nStable, 0, false, false, 0)
+	n.roleP(c15Leader, 0)
+	r := n.r
+	pending := vfChoice("pending", 2) == 1
+	r.raftLog.applied = r.raftLog.committed
+	if pending {
+		r.pendingConfIndex = r.raftLog.lastIndex() // an unapplied configuration change is in the log
+	} else {
+		r.pendingConfIndex = r.raftLog.applied
+	}
+	cc := pb.ConfChange{Type: pb.ConfChangeAddNode, NodeID: 4}
+	data, _ := cc.Marshal()
+	two := vfChoice("two", 2) == 1
+	ents := []pb.Entry{{Type: pb.EntryConfChange, Data: data}}
+	if two {
+		ents = append(ents, pb.Entry{Type: pb.EntryConfChange, Data: data})
+	}
+	lastBefore := r.raftLog.lastIndex()
+	if n.step(pb.Message{Type: pb.MsgProp, From: 1, Entries: ents}) {
+		return
+	}
+	confs := 0
+	for i := lastBefore + 1; i <= r.raftLog.lastIndex(); i++ {
+		es, _ := r.raftLog.slice(i, i+1, noLimit)
+		if len(es) == 1 && es[0].Type == pb.EntryConfChange {
+			confs++
+		}
+	}
+	if pending {
+		vfAssert(confs == 0, "second-pending-confchange-accepted")
+	} else {
+		vfAssert(confs <= 1, "two-confchanges-in-one-proposal")
+	}
+}
+
+func VF_C15_confchange() { c15ConfChange(1) }
